@@ -146,6 +146,7 @@ func columnsLayout(context *layoutContext, box_ bo.BlockBoxITF, bottomSpace pr.F
 		currentPositionY    = box.ContentBoxY()
 		newChildren         []Box
 		columnSkipStack     tree.ResumeStack
+		spanningResumeAt    tree.ResumeStack // resume point inside a spanning block
 		lastLoop            = false
 		breakPage           = false
 		lastFootnotesHeight pr.Float
@@ -164,7 +165,13 @@ func columnsLayout(context *layoutContext, box_ bo.BlockBoxITF, bottomSpace pr.F
 			resolvePercentagesBox(block, containingBlock, 0)
 			block.Box().PositionX = box.ContentBoxX()
 			block.Box().PositionY = currentPositionY
-			newChild, tmp, _ := blockLevelLayout(context, block, originalBottomSpace, skipStack,
+			// skipStack is relative to the first child laid out: for a
+			// spanning block, the resume point inside the block is its entry 0
+			var blockSkipStack tree.ResumeStack
+			if skipStack != nil {
+				blockSkipStack = skipStack[0]
+			}
+			newChild, tmp, _ := blockLevelLayout(context, block, originalBottomSpace, blockSkipStack,
 				containingBlock, pageIsEmpty, absoluteBoxes, fixedBoxes, &adjoiningMargins, false, -1)
 			nextPage, adjoiningMargins = tmp.nextPage, tmp.adjoiningMargins
 			skipStack = nil
@@ -179,7 +186,7 @@ func columnsLayout(context *layoutContext, box_ bo.BlockBoxITF, bottomSpace pr.F
 			if tmp.resumeAt != nil {
 				lastLoop = true
 				breakPage = true
-				columnSkipStack = tmp.resumeAt
+				spanningResumeAt = tmp.resumeAt
 				break
 			}
 			pageIsEmpty = false
@@ -464,7 +471,11 @@ func columnsLayout(context *layoutContext, box_ bo.BlockBoxITF, bottomSpace pr.F
 	}
 
 	// Calculate skip stack
-	if columnSkipStack != nil {
+	if spanningResumeAt != nil {
+		// the keys of spanningResumeAt are indices in the spanning block,
+		// which is the child [index] of the box
+		skipStack = tree.ResumeStack{index: spanningResumeAt}
+	} else if columnSkipStack != nil {
 		skip, _ = columnSkipStack.Unpack()
 		skipStack = tree.ResumeStack{index + skip: columnSkipStack[skip]}
 	} else if breakPage {
